@@ -343,7 +343,7 @@ public:
   patricia_tree_set_t operator+(const Element &e) const {
     patricia_tree_t t = this->_tree;
     t.insert(e, true);
-    return patricia_tree_set_t(t);
+    return patricia_tree_set_t(std::move(t));
   }
 
   patricia_tree_set_t &operator+=(const Element &e) {
@@ -354,7 +354,7 @@ public:
   patricia_tree_set_t operator-(const Element &e) const {
     patricia_tree_t t = this->_tree;
     t.remove(e);
-    return patricia_tree_set_t(t);
+    return patricia_tree_set_t(std::move(t));
   }
 
   patricia_tree_set_t &operator-=(const Element &e) {
